@@ -14,6 +14,50 @@ CLAIMED = {
              "is one atomic step; Arc/Weak/mpsc sequential semantics as modelled.",
         technique="Lean 4 invariant proof (induction over op lists) + model/implementation correspondence",
         design="8/C13"),
+    "C07": dict(
+        text="Lean 4 theorems over the model of Context's wire form (ser = deadline - now saturating, de = now' + x; all Nat "
+             "ns, chains of any length): one-hop exact formula max(d,send)+transit with never-earlier / at-most-transit / "
+             "expired-arrives-as-now, chain closed form max(d+accumulated transit, last receive) (and d-or-first-send + "
+             "transit when handlers are alive), nested-call lifetime bound, skew independence, 10 s default tied to the "
+             "source constant, in-memory identity, monitor acceptance+soundness; model tied to the code by differential "
+             "execution of the real serde_json/bincode/tokio-serde codecs and real client+BaseChannel chains (1-3 hops, "
+             "json/bincode/in-memory) under a paused virtual clock, the proved monitor also run on the implementation's trace.",
+        note="Trusted: Lean kernel; axioms propext/Classical.choice/Quot.sound; harness + ./check; verif-hooks clock = "
+             "tokio paused clock, synchronous calls take zero virtual time; one clock for all hops in the harness (skew "
+             "is a theorem only); Duration encodings exact (C15) and Instant overflow (C16) out of scope; "
+             "context::current() span deadline not exercised.",
+        technique="Lean 4 arithmetic/induction proofs (omega) + model/implementation correspondence under virtual time",
+        design="8/C07"),
+    "C19": dict(
+        text="Lean 4 theorems over an executable model of the request-hook combinators (HookThenServe, ServeThenHook, "
+             "HookThenServeThenHook, BeforeRequestCons/Nil, then, serving), for every wrapper stack, hook script, "
+             "context and request (structural induction, no bound): list order with context threading, whole-stack "
+             "before-order = one flat list, first failure stops (no later hook, no handler, error is the response / "
+             "what the next after-hook sees), after-hook exactly once after what it wraps and its edit is the response, "
+             "before-and-after skips its after part iff its before part fails and else shows it its own edited context, "
+             "plain after-hook sees the caller's context (Context is Copy), then/serving = append/nesting, monitor "
+             "acceptance and exactness (conforms <-> eval). Tied to the code by running the real combinators, nested "
+             "dynamically (depth 0-5, lists 0-4, every failing position), against the model, textual equality of every "
+             "invocation, context, result and response; the proved monitor also runs on the implementation's trace.",
+        note="Trusted: Lean kernel; axioms propext/Classical.choice/Quot.sound; harness + ./check. Context observed "
+             "through trace_context.span_id only; hooks complete immediately; ServerError identified by its detail; "
+             "static cons-lists of length 0..4 in the harness stand for all lengths (Lean proofs are unbounded).",
+        technique="Lean 4 structural-induction proofs over an executable model + differential execution of the real combinators",
+        design="8/C19"),
+    "C20": dict(
+        text="Lean 4 theorems over an executable model of the RoundRobin / ConsistentHash / Retry stubs: exact per-backend "
+             "counts N/n + [j < N%n] for all n>=1, N<2^64 (so spread <= 1 after every prefix), independence of the "
+             "first-poll order (permutations; op-level: every interleaving of create/first-poll/drop), hash index < n and a "
+             "function of the request for any hasher, retry loop (attempts 1,2,3.., identical request, last result returned "
+             "unchanged, stops at the first declining answer; never-declining case), monitor acceptance for all op sequences; "
+             "tied to the code by differential execution of the real stubs over recording mock backends, the proved "
+             "monitors also run on the implementation's traces.",
+        note="Trusted: Lean kernel; axioms propext/Classical.choice/Quot.sound; harness + ./check. Hypotheses: n>=1 (n=0 "
+             "panics with remainder by zero - recorded by a witness theorem and observed, outside the statement); cursor "
+             "not wrapped (<2^64 first polls; wrap witness given); <2^32 attempts per retry call; fetch_add atomic; "
+             "hasher/policy are pure functions; harness single-threaded, interleaving at first-poll granularity.",
+        technique="Lean 4 algebraic/inductive proofs + coupling invariant (model/monitor) + model/implementation correspondence",
+        design="8/C20"),
 }
 
 NOT_YET = {
